@@ -25,7 +25,10 @@ Inductive value :=
 | VMissing                      (* flow.record.selector.NONE_OBJECT *)
 | VRec                          (* the record being matched (`r`) *)
 | VTypeRoot                     (* `Type` = TypeMatcher(record) *)
-| VTypeM (t : string)           (* `Type.<t>` for a whitelisted leaf type = TypeMatcherInstance *)
+| VTypeM (t : string) (attrs : list string)
+                                (* `Type.<t>[.<attr>...]` for a whitelisted leaf type = TypeMatcherInstance *)
+| VSub (name : str) (fields : list (string * string * value))
+                                (* a record held by a `record` / `record[]` field: descriptor name, fields *)
 | VFunc (f : string)            (* a helper function / any / all / str / repr / fields *)
 | VFt (path : string).          (* field-type module or constructor: `net`, `net.ipaddress`, `string` *)
 
@@ -96,7 +99,15 @@ Fixpoint value_eqb (a b : value) {struct a} : bool :=
   | VMissing, VMissing => true
   | VRec, VRec => true
   | VTypeRoot, VTypeRoot => true
-  | VTypeM x, VTypeM y => String.eqb x y
+  | VTypeM x ax, VTypeM y ay => String.eqb x y && list_eqb String.eqb ax ay
+  | VSub nx fx, VSub ny fy =>
+      list_eqb N.eqb nx ny &&
+      (fix go (x y : list (string * string * value)) : bool :=
+         match x, y with
+         | [], [] => true
+         | (n1, t1, u) :: s, (n2, t2, w) :: t => String.eqb n1 n2 && String.eqb t1 t2 && value_eqb u w && go s t
+         | _, _ => false
+         end) fx fy
   | VFunc x, VFunc y => String.eqb x y
   | VFt x, VFt y => String.eqb x y
   | _, _ => false
